@@ -563,7 +563,12 @@ func evalImportStmt(vm *r.VM, node *syntax.ImportStmt) error {
 		} else {
 			// import selected symbols
 			for _, id := range node.ImportItems {
-				name := id.GetLiteral()
+				// the listed items are names like any other
+				idName, err := MatchIDName(id)
+				if err != nil {
+					return err
+				}
+				name := idName.GetLiteral()
 				if val, err2 := extModule.GetExportValue(name); err2 == nil {
 					if err := vm.DeclareExternalElement(r.NewIDName(name), val, extModule); err != nil {
 						return err
